@@ -795,7 +795,7 @@ FORT = ["{a} + 1/8", "x^2*3/4 + 7/2 - {a}*(1/8 + x)", "2^-3 + {a}", "({a} + 1/4)
 
 
 def gen_fort_case(rng, k):
-    """rational constants in an equation compiled by the Fortran backend (C05 and C02): exact dyadic values"""
+    """rational constants in an equation compiled by the Fortran backend (C05 and C02; repaired by D117): exact dyadic values"""
     a = rng.choice(["r", "k", "weight"])
     s = FORT[k % len(FORT)].format(a=a)
     return dict(kind="fort", eq=f"x' = {s}", s=s, pt={a: dy_val(rng), "x": dy_val(rng)}, fname=f"c05ft_{k}_{rng.randrange(10**6)}")
@@ -1300,9 +1300,7 @@ def check(ctx):
     if ifo:
         b, g, rz = compare_fort(ctx, [cases[i] for i in ifo], [outs[i] for i in ifo], "main")
         crashed += [ifo[j] for j in rz]
-        for j in g:
-            if j not in rz:
-                guard_viol[ifo[j]] = ["no_const_fraction"]
+        # no guard: the class (Lang.no_const_fraction false) is repaired by D117 and decided
         for j in b:
             bad_spec.append(ifo[j]); bad_impl.append(ifo[j])
         ctx.note(f"fort: {len(ifo)} equations with rational constants through the Fortran backend; disagreements {len(b)} "
